@@ -208,6 +208,8 @@ LabelFor(a, t, ax, k) ==
        [] a.f = "injective"  -> [id |-> id, label |-> "g_" \o id, none |-> FALSE]
        [] a.f = "parity"     -> [id |-> id, label |-> IF NatRank[id] % 2 = 0 THEN "g0" ELSE "g1", none |-> FALSE]
        [] a.f = "first_none" -> [id |-> id, label |-> "g1", none |-> (k = 1)]
+       [] a.f = "int_parity" -> [id |-> id, label |-> IF k % 2 = 1 THEN "i0" ELSE "i1", none |-> FALSE]   \* falsy label 0
+       [] a.f = "empty_text" -> [id |-> id, label |-> IF k = 1 THEN "e" ELSE "g1", none |-> FALSE]        \* falsy label ''
        [] a.f = "dict_id2grp" -> [id |-> id, label |-> IF k % 2 = 0 THEN "g0" ELSE "g1", none |-> FALSE]
        [] a.f = "dict_grp2ids" -> [id |-> id, label |-> IF k = 1 THEN "g1" ELSE "g0", none |-> FALSE]
        [] OTHER -> [id |-> id, label |-> "gc", none |-> FALSE]
@@ -533,8 +535,9 @@ StepsFor(call, h, recv, res, full) ==
                  ax \in Axes, v \in (IF full THEN {"method", "biom.concat", "single"} ELSE {"method"})}
     [] call = "partition" ->
          {St(call, recv, recv, [f |-> f, axis |-> ax, remove_empty |-> re, ignore_none |-> ig]) :
-            f \in (IF full THEN {"by_md", "constant", "injective", "parity", "first_none", "dict_id2grp", "dict_grp2ids"}
-                   ELSE {"parity", "first_none"}),
+            f \in (IF full THEN {"by_md", "constant", "injective", "parity", "first_none", "dict_id2grp", "dict_grp2ids",
+                                 "int_parity", "empty_text"}
+                   ELSE {"parity", "first_none", "int_parity"}),
             ax \in Axes, re \in BOOLEAN, ig \in (IF full THEN BOOLEAN ELSE {TRUE})}
     [] call = "collapse" ->
          {St(call, recv, res, [f |-> f, axis |-> ax, norm |-> nm, min_group_size |-> mg, include_collapsed_metadata |-> ic,
